@@ -980,6 +980,10 @@ func (ctx *context) getInvitationRecipientKey(invitation *Invitation) (string, e
 		return recKey, nil
 	}
 
+	if len(invitation.RecipientKeys) == 0 {
+		return "", errors.New("get invitation recipient key: invitation has no recipient keys")
+	}
+
 	return invitation.RecipientKeys[0], nil
 }
 
@@ -1233,6 +1237,10 @@ func (ctx *context) resolveVerKey(i *OOBInvitation) (string, error) {
 		return "", fmt.Errorf("failed to get service block from oobinvitation : %w", err)
 	}
 
+	if len(svc.RecipientKeys) == 0 {
+		return "", errors.New("service block of the oob invitation has no recipient keys")
+	}
+
 	logger.Debugf("extracted verkey=%s", svc.RecipientKeys[0])
 
 	// use RecipientKeys[0] (DIDComm V1)
@@ -1249,6 +1257,10 @@ func recipientKey(doc *did.Doc) (string, error) {
 	dest, err := service.CreateDestination(doc)
 	if err != nil {
 		return "", fmt.Errorf("failed to create destination: %w", err)
+	}
+
+	if len(dest.RecipientKeys) == 0 {
+		return "", errors.New("destination has no recipient keys")
 	}
 
 	return dest.RecipientKeys[0], nil
